@@ -22,6 +22,16 @@ pub struct Case {
 
 fn image(c: &Case) -> Vec<u8> {
     let mut body: Vec<u8> = (0..8 + c.map_len).map(|i| marker(c.key, i)).collect();
+    // every second map: descriptors as firmware writes them (defined type
+    // numbers incl. the terminator value 16, small page counts incl. 0,
+    // conventional attributes)
+    let d = c.d as usize;
+    if c.key & 4 == 4 && (40..=4096).contains(&d) {
+        for j in 0..c.map_len / d {
+            let e = mb2_model::realistic::efi_descriptor(c.key, j, d);
+            body[8 + j * d..8 + j * d + 40].copy_from_slice(&e[..40]);
+        }
+    }
     put32(&mut body, 0, c.d);
     put32(&mut body, 4, c.version);
     let mut img = mb2_model::encode::tag(17, &body);
@@ -237,10 +247,82 @@ fn strategy(_: &Ctx) -> BoxedStrategy<Case> {
         .boxed()
 }
 
+// --- maps with more descriptors than a 16-bit counter holds ----------------------------
+
+fn large_ok(d: usize, count: usize) -> Result<(), String> {
+    let c = Case { d: d as u32, version: 1, map_len: d * count, key: 0x1A26E + count as u64, in_mbi: false };
+    let img = image(&c);
+    let a = Aligned::new(&img);
+    let base = a.as_ptr() as usize;
+    let tag = multiboot2_common::DynSizedStructure::<multiboot2::TagHeader>::ref_from_slice(a.as_slice()).map_err(|e| format!("{e:?}"))?;
+    let r = mb2_model::panics::catch(|| -> Result<(), String> {
+        let tag = tag.cast::<multiboot2::EFIMemoryMapTag>();
+        let off = |x: &multiboot2::EFIMemoryDesc| x as *const _ as usize - base;
+        let it = tag.memory_areas();
+        if it.len() != count {
+            return Err(format!("len() = {}, the map holds {count} descriptors", it.len()));
+        }
+        let mut seen = 0usize;
+        for (i, x) in it.enumerate() {
+            if off(x) != 16 + i * d {
+                return Err(format!("descriptor {i} at offset {}, expected {}", off(x), 16 + i * d));
+            }
+            let want = le32(&img, 16 + i * d);
+            if x.ty.0 != want {
+                return Err(format!("descriptor {i}: type {} decoded, {want} stored", x.ty.0));
+            }
+            seen += 1;
+        }
+        if seen != count {
+            return Err(format!("{seen} descriptors yielded, the map holds {count}"));
+        }
+        for k in [count - 1, count / 2, 65535usize.min(count - 1), 65536usize.min(count - 1)] {
+            if tag.memory_areas().nth(k).map(off) != Some(16 + k * d) {
+                return Err(format!("nth({k}) is not the descriptor at offset {}", 16 + k * d));
+            }
+        }
+        if tag.memory_areas().last().map(off) != Some(16 + (count - 1) * d) || tag.memory_areas().count() != count {
+            return Err("last()/count() disagree with the descriptor count".into());
+        }
+        Ok(())
+    });
+    match r {
+        Some(r) => r,
+        None => Err("iteration panicked on a valid map".into()),
+    }
+}
+
+fn run_large(ctx: &Ctx, rep: &mut SubReport) {
+    let cases: Vec<(usize, usize)> = vec![(40, 65535), (40, 65536), (40, 65537), (48, 70000), (40, 131072)];
+    for (i, (d, count)) in cases.into_iter().enumerate() {
+        if !ctx.mine(i as u64) {
+            continue;
+        }
+        rep.evaluations += 1;
+        rep.nontrivial.insert((d * 1_000_000 + count) as u64);
+        if let Err(m) = large_ok(d, count) {
+            rep.violations.push(Violation { sub: "large-maps".into(), profile: profile_name().into(), message: format!("valid map with {count} descriptors of {d} bytes: {m}"), case: json!({"d": d, "count": count}) });
+            return;
+        }
+    }
+    rep.samples.push(json!({"desc_size": 40, "descriptors": 65536, "expect": "all yielded in place"}));
+}
+
+fn replay_large(v: &serde_json::Value) -> Result<(), String> {
+    large_ok(v["d"].as_u64().unwrap_or(40) as usize, v["count"].as_u64().unwrap_or(65536) as usize)
+}
+
 pub fn subs() -> Vec<Box<dyn Sub>> {
-    vec![Box::new(PropSub::<Case> {
+    vec![
+    Box::new(LoopSub {
+        name: "large-maps",
+        profiles: Profiles::Both,
+        rule: "valid version-1 maps that really hold 65535, 65536, 65537, 70000 and 131072 descriptors (2.6 - 5 MB, in this process): len() equals the count, every descriptor is yielded at its place with its stored type, nth() at and around 2^16, last() and count() agree. Non-trivial = every case",
+        run: run_large,
+        replay: replay_large,
+    }),Box::new(PropSub::<Case> {
         name: "efi-iter",
-        rule: "EFI memory-map tags with marker descriptor bytes, stand-alone at a PROT_NONE page or inside a boot information. Enumerated: descriptor size 0..=128 (thorough 160) x version {0,1,2} x count 0..=4 x length slack {0,1,7,8,d-8,d/2,d-4,d-1,d-7}; generated: strides up to 160 / random, up to 11 entries, random versions. Valid (version 1, d>=40, d%8==0, L%d==0): exactly L/d items, item i at map offset i*d with the five fields decoded by the model, len() == items still to come after every next(), clone mid-way yields the same rest. Otherwise: a controlled panic before the iteration completes and no descriptor that is misaligned or overlaps the tag end (L==0: panic or empty). Non-trivial = invalid combination or >=2 entries; distinct by (d, version, L, embedding)",
+        rule: "EFI memory-map tags with marker descriptor bytes (every second map: descriptors as firmware writes them - type numbers 0..=16, page counts incl. 0, conventional attributes), stand-alone at a PROT_NONE page or inside a boot information. Enumerated: descriptor size 0..=128 (thorough 160) x version {0,1,2} x count 0..=4 x length slack {0,1,7,8,d-8,d/2,d-4,d-1,d-7}; generated: strides up to 160 / random, up to 11 entries, random versions. Valid (version 1, d>=40, d%8==0, L%d==0): exactly L/d items, item i at map offset i*d with the five fields decoded by the model, len() == items still to come after every next(), clone mid-way yields the same rest. Otherwise: a controlled panic before the iteration completes and no descriptor that is misaligned or overlaps the tag end (L==0: panic or empty). Non-trivial = invalid combination or >=2 entries; distinct by (d, version, L, embedding)",
         profiles: Profiles::Both,
         quick: 3000,
         thorough: 100000,
